@@ -49,6 +49,8 @@ structure Request where
   now : Nat := 0
   /-- would the frame built from `xs-meta` read back (nesting rule of XsModel/Json.lean) -/
   metaDecodable : Bool := true
+  /-- the body cannot be read to its end (bad chunk framing, fewer bytes than announced) -/
+  bodyBroken : Bool := false
   deriving Repr
 
 inductive Route where
@@ -180,7 +182,7 @@ def followOf : FollowOpt → Bool
 
 /-- `handle_stream_append`: body → CAS (zero bytes: no hash), then the `xs-meta` header,
     then `Store::append`; validation failures are 400 -/
-def handleAppend (s : Srv) (r : Request) (topic : List Nat) (ttl : TTL) (ctx : Nat) : Srv × Resp :=
+def handleAppendRead (s : Srv) (r : Request) (topic : List Nat) (ttl : TTL) (ctx : Nat) : Srv × Resp :=
   let s1 : Srv := { s with cas := if r.body.isEmpty then s.cas else casPut s.cas r.bodyHash r.body }
   let hash := if r.body.isEmpty then none else some r.bodyHash
   let mdata : Option (Option String) := match r.xsMeta with
@@ -196,16 +198,27 @@ def handleAppend (s : Srv) (r : Request) (topic : List Nat) (ttl : TTL) (ctx : N
     | .ok (st, f) => ({ s1 with store := st }, .frame f)
     | .error _ => (s1, .badRequest)
 
-def handleCasPost (s : Srv) (r : Request) : Srv × Resp :=
+/-- the body is read first; if that fails nothing has been committed to the CAS and the request
+    is answered 400 -/
+def handleAppend (s : Srv) (r : Request) (topic : List Nat) (ttl : TTL) (ctx : Nat) : Srv × Resp :=
+  if r.bodyBroken then (s, .badRequest) else handleAppendRead s r topic ttl ctx
+
+def handleCasPostRead (s : Srv) (r : Request) : Srv × Resp :=
   if r.body.isEmpty then (s, .badRequest)
   else ({ s with cas := casPut s.cas r.bodyHash r.body }, .hashText r.bodyHash)
 
-def handleImport (s : Srv) (r : Request) : Srv × Resp :=
+def handleCasPost (s : Srv) (r : Request) : Srv × Resp :=
+  if r.bodyBroken then (s, .badRequest) else handleCasPostRead s r
+
+def handleImportRead (s : Srv) (r : Request) : Srv × Resp :=
   match r.importBody with
   | .badJson => (s, .badRequest)
   | .frame f => match s.store.insertFrame f with
     | .ok st => ({ s with store := st }, .frame f)
     | .error _ => (s, .badRequest)
+
+def handleImport (s : Srv) (r : Request) : Srv × Resp :=
+  if r.bodyBroken then (s, .badRequest) else handleImportRead s r
 
 def handleCat (s : Srv) (r : Request) (sse : Bool) (o : ReadOpts) : Srv × Resp :=
   if followOf o.follow then
